@@ -17,7 +17,23 @@ CLASSES = {"v0rx": "PDUv0Rx", "v0tx": "PDUv0Tx", "v1rx": "PDUv1Rx", "v1tx": "PDU
 VER = {"v0rx": 0, "v0tx": 0, "v1rx": 1, "v1tx": 1, "v2rx": 2, "v2tx": 2}
 
 
+MK = [0]
+POOL = {}
+
+
 def mk(kind):
+	""" A fresh instance of the PDU class.  Now and then another instance of some class is created
+	    with check_len=False just before: the classes share field objects, and what one instance's
+	    constructor does must not change how another instance behaves. """
+	MK[0] += 1
+	if MK[0] % 7 == 0:
+		other = list(CLASSES.values())[(MK[0] // 7) % len(CLASSES)]
+		getattr(trxd_proto, other)(check_len = False)
+	if MK[0] % 3 == 0:
+		# a long-lived instance, created before whatever other instances came and went
+		if kind not in POOL:
+			POOL[kind] = getattr(trxd_proto, CLASSES[kind])()
+		return POOL[kind]
 	return getattr(trxd_proto, CLASSES[kind])()
 
 
@@ -32,6 +48,9 @@ def same(ref, got):
 				continue
 			for i, (a, b) in enumerate(zip(v, g)):
 				bad += ["bpdu[%d].%s" % (i, x) for x in same(a, b)]
+				for bk in ("soft-bits", "hard-bits"):
+					if bk in b and bk not in a:
+						bad.append("bpdu[%d] carries %s although it is a NOPE sub-PDU" % (i, bk))
 			continue
 		if k == "pad":
 			if bytes(got.get("pad", b"")) != bytes(v):
@@ -188,7 +207,11 @@ def cross_check(ctx, r, m, legacy):
 	if m["dir"] == "tx":
 		if c.get("pwr") != m["pwr"]:
 			bad.append("pwr")
-		if bytes(c.get("hard-bits", b"")) != bytes(m["bits"]):
+		hb = bytes(c.get("hard-bits", b""))
+		pad = b"\0\0" if (legacy and m["ver"] == 0) else b""
+		# the Tx definitions have no padding field: the two legacy octets of a version-0 datagram
+		# show up behind the hard bits
+		if hb != bytes(m["bits"]) + pad:
 			bad.append("hard-bits")
 	else:
 		if c.get("rssi") != m["rssi"] or c.get("toa256") != m["toa256"]:
@@ -220,7 +243,7 @@ def run(ctx):
 		"truncation; reserved modulation code 0b0111 (error path); every v0/v1 datagram class of the message codec (GSM and EDGE "
 		"lengths, legacy padding on/off in the TRX->L1 direction) through the corresponding definition; distinct = distinct octet "
 		"strings; all non-trivial")
-	ctx.assume("legacy padding exists in the TRX -> L1 direction only (PDUv0Tx has no padding field)")
+	ctx.assume("PDUv0Tx has no padding field: for a legacy-padded version-0 Tx datagram the two octets are expected behind the hard bits")
 	r = ctx.rng("c17")
 	# all modulation codes x NOPE for the classes that carry MTS
 	for kind in ("v1rx", "v2rx", "v2tx"):
@@ -258,7 +281,7 @@ def run(ctx):
 			return
 	for i in range(ctx.scale(20000, 2000000)):
 		m = trxd.rand_msg(r)
-		legacy = (r.random() < 0.5) and m["dir"] == "rx"
+		legacy = r.random() < 0.5
 		cross_check(ctx, r, m, legacy)
 		if ctx.too_many():
 			return
